@@ -20,6 +20,10 @@ type FuncResult struct {
 	Assumption []string
 	Assumed    bool
 	SweepOnly  bool
+	// vacuity guard: posts of the form A ==> B, where seen, and whether A was
+	// found reachable without the solver
+	AnteSeen    map[string]string
+	AnteReached map[string]bool
 }
 
 func (w *World) verifyContract(con *Contract, opts *RunOpts) (res *FuncResult) {
@@ -77,6 +81,12 @@ func (w *World) verifyContract(con *Contract, opts *RunOpts) (res *FuncResult) {
 	}()
 	findings := opts.findingsFor(con)
 	pathNo := 0
+	anteReached := map[string]bool{}
+	anteQueries := map[string]int{}
+	anteSeen := map[string]string{}
+	defer func() {
+		res.AnteSeen, res.AnteReached = anteSeen, anteReached
+	}()
 	if _, ok := con.option("both-map-orders"); ok {
 		// every shape once with maps iterated in insertion order, once reversed
 		var both []*ShapeCase
@@ -244,6 +254,33 @@ func (w *World) verifyContract(con *Contract, opts *RunOpts) (res *FuncResult) {
 					}
 					ob.ctx = &obCtx{shape: sc, pre: pre, post: o.St, rets: o.Rets, clause: en, con: con}
 					e.emit(o.St, ob)
+					// vacuity guard: a post `A ==> B` must have its antecedent reachable on
+					// some explored path (decided by the simplifier where it can, else by a
+					// few solver queries); reported per contract at the end
+					if en.Expr.Kind == "binary" && en.Expr.Op == "==>" && !anteReached[name] {
+						func() {
+							defer func() { recover() }()
+							actx := &EvalCtx{sp: w.specs, env: env2, st: o.St, old: pre, ex: e, origin: name + "@ante"}
+							ante := actx.evalBool(en.Expr.Kids[0])
+							switch {
+							case ante.isTrue() && !goal.isTrue():
+								anteReached[name] = true
+							case ante.isTrue():
+								anteReached[name] = true
+							case ante.isFalse():
+							default:
+								// the first few paths, then a sample of the later ones
+								if anteQueries[name] < 4 || (anteQueries[name] < 24 && pathNo%5 == 0) {
+									anteQueries[name]++
+									cov := &Oblig{Kind: "cover", Name: name + "@reachable", Goal: mkNot(ante), Expect: "sat", PathNo: pathNo}
+									e.emit(o.St, cov)
+								}
+							}
+							if _, seen := anteSeen[name]; !seen {
+								anteSeen[name] = en.Pos
+							}
+						}()
+					}
 					// known-finding carve-outs
 					for _, kf := range findings {
 						if kf.Obligation != name {
